@@ -146,6 +146,45 @@ def main() -> int:
         elif placeholder_form(c) != placeholder_form(b):
             spec_failures.append({"suite": "scripts-placeholder", "sql": x["sql"], "no_default": c, "explicitly_qualified_with_placeholder": placeholder_form(b),
                                   "spec": "with no default the placeholder schema is used uniformly for sources, targets and column owners"})
+    # homonyms: the unqualified table w next to a table of the same bare name in another schema (s1.w, dflt.w), referred to by
+    # bare name, alias or full name, in every arrangement of one FROM - name resolution must not depend on whether "dflt"
+    # is configured or written out (three-way: scoped = environment = explicit; the specification is not consulted here,
+    # a bare name that two relations answer to is ambiguous)
+    homo = []
+    others = ["s1.w", "dflt.w", "s1.w x", "dflt2.w"]
+    for o in others:
+        for first, second in (("w", o), (o, "w"), ("w w0", o), (o, "w w0")):
+            # only qualifiers that name a relation of this FROM (a dangling qualifier is a table name of its own)
+            valid = ["w", o.split()[0]] + (["x"] if o.endswith(" x") else []) + (["w0"] if "w0" in first + second else [])
+            for jn in (" join %s on 1 = 1", ", %s", " left join %s on w.k = 1"):
+                for qi, q in enumerate(valid):
+                    for tgt in ("tgt", "s9.tgt"):
+                        homo.append("insert into %s select %s.col, %s.c2 as z from %s%s" % (tgt, q, valid[(qi + 1) % len(valid)], first, jn % second))
+    homo += ["insert into tgt select w.col from s1.w join w on 1 = 1 join dflt.w on 1 = 1",
+             "insert into tgt select * from w join s1.w on w.k = s1.w.k",
+             "insert into tgt select col from w, s1.w",
+             "create table tgt as select w.col from (select col from s1.w) w join w on 1 = 1"]
+    if quick:
+        homo = [h for i, h in enumerate(homo) if i % 3 == (int(os.environ.get("VERIF_SEED", "0")) % 3)] + homo[-4:]
+    hp = [{"sql": h, "dialect": "ansi", "metadata": None, "config": {}} for h in homo]
+    def qual_tables(sql):
+        # qualify table positions only: after from / join / comma in FROM / into / table
+        def fix(m):
+            return m.group(1) + "dflt." + m.group(2)
+        return re.sub(r"((?:from|join|into|table|,)\s+)(w|tgt)(?![\w.])", fix, sql)
+    h_scoped = t2tie.summaries([dict(x, config={"DEFAULT_SCHEMA": "dflt"}) for x in hp])
+    h_explicit = t2tie.summaries([dict(x, sql=qual_tables(x["sql"])) for x in hp])
+    h_env = env_summaries(hp, "dflt")
+    dist["homonym_statements"] = len(hp)
+    for x, a, b, e in zip(hp, h_scoped, h_explicit, h_env):
+        ck.count()
+        if b.startswith("ERR") and a.startswith("ERR"):
+            continue
+        ck.nontriv(("homonym", x["sql"]))
+        if a != b or e != b:
+            spec_failures.append({"suite": "homonyms", "default_schema": "dflt", "sql": x["sql"], "qualified_sql": qual_tables(x["sql"]),
+                                  "with_default_schema": a, "with_environment_variable": e, "explicitly_qualified": b,
+                                  "spec": "default schema S gives the same result as writing every unqualified table name as S.name"})
     # no default: the placeholder is used uniformly (= the specification with ds = "")
     spec0 = sqltie.spec_strings(stmts, ds="")
     for s, rec, a, sp in zip(stmts, sqltie.records(stmts), t2tie.summaries(sqltie.records(stmts)), spec0):
